@@ -14,8 +14,7 @@
    contexts at the pinned commit.
    Conventions: names and ids are numbers; a context is an association list with set = replace-or-append
    (only look-ups and the entry set are observed; the check compares contexts as sorted maps); input data are
-   taken from the input context by name (their type check is C11's subject: the check uses number-typed inputs and
-   numeric values); output variables are untyped (coercion is C11/C16).
+   taken from the input context by name and number-typed (input_value; typing in general is C11's subject); output variables are untyped (coercion is C11/C16).
    No proofs in this file. *)
 From Coq Require Import List NArith ZArith Bool Arith.
 Import ListNotations.
@@ -82,9 +81,11 @@ Definition svc_fn (G : graph) (s : N) (acc : env) : env :=
   | _ => acc
   end.
 
-(* the required inputs of a decision / a service, taken from the input context by the variable evaluator *)
+(* the required inputs of a decision / a service, taken from the input context by the variable evaluator of the input data;
+   input data are number-typed in this model (typeRef="number": anything but a number becomes null; typing in general is C11) *)
+Definition input_value (nm : N) (inp : env) : value := match getv nm inp with VNum z => VNum z | _ => VNull end.
 Definition inputs_into (G : graph) (ids : list N) (inp : env) (acc : env) : env :=
-  fold_left (fun a nm => set nm (getv nm inp) a) (input_names G ids) acc.
+  fold_left (fun a nm => set nm (input_value nm inp) a) (input_names G ids) acc.
 
 Inductive kind := KDec | KBkm | KSvc.
 
